@@ -23,12 +23,17 @@ def _file_hashes(root_dirs):
     return out
 
 
-def build_pyimath():
+SANFLAG = {"asan": "-fsanitize=address", "tsan": "-fsanitize=thread"}
+
+
+def build_pyimath(flavor="asan"):
     """Configure once, then let ninja rebuild incrementally.  A file whose content hash changed since the last
-    build is touched first, so that content - not mtime - decides what is rebuilt."""
+    build is touched first, so that content - not mtime - decides what is rebuilt.  flavor: asan (memory errors are
+    part of the oracle) or tsan (data races between concurrently running sub-ranges, C20)."""
     repo = R.REPO
     tag = hashlib.sha256(repo.encode()).hexdigest()[:8]
-    bdir = os.path.join(R.BUILD, "pyimath-asan" if repo == "/repo" else "pyimath-asan-" + tag)
+    sflag = SANFLAG[flavor]
+    bdir = os.path.join(R.BUILD, "pyimath-" + flavor if repo == "/repo" else "pyimath-%s-%s" % (flavor, tag))
     t0 = time.time()
     cfg_files = [os.path.join(repo, "CMakeLists.txt")] + R.walk(os.path.join(repo, "config")) + R.walk(os.path.join(repo, "cmake")) + \
         [p for p in R.walk(os.path.join(repo, "src")) if os.path.basename(p) == "CMakeLists.txt" or p.endswith(".cmake")]
@@ -44,8 +49,8 @@ def build_pyimath():
         shutil.rmtree(bdir, ignore_errors=True)
         os.makedirs(bdir)
         cmd = ["cmake", "-S", repo, "-B", bdir, "-G", "Ninja", "-DPYTHON=ON", "-DPython3_EXECUTABLE=" + PYEXE_BUILD, "-DBUILD_TESTING=OFF",
-               "-DCMAKE_BUILD_TYPE=Release", "-DCMAKE_CXX_FLAGS=-O1 -g1 -fsanitize=address -fno-omit-frame-pointer", "-DCMAKE_CXX_FLAGS_RELEASE=",
-               "-DCMAKE_SHARED_LINKER_FLAGS=-fsanitize=address", "-DCMAKE_MODULE_LINKER_FLAGS=-fsanitize=address"]
+               "-DCMAKE_BUILD_TYPE=Release", "-DCMAKE_CXX_FLAGS=-O1 -g1 %s -fno-omit-frame-pointer" % sflag, "-DCMAKE_CXX_FLAGS_RELEASE=",
+               "-DCMAKE_SHARED_LINKER_FLAGS=" + sflag, "-DCMAKE_MODULE_LINKER_FLAGS=" + sflag]
         r = R.run(cmd)
         if r.returncode != 0:
             raise R.BuildError("cmake configure of PyImath failed:\n" + r.stdout[-3000:])
@@ -54,6 +59,8 @@ def build_pyimath():
     old = st.get("files", {})
     now = time.time()
     for p, h in cur.items():
+        if flavor != "asan":
+            break  # mtimes are bumped once, by the asan build that always runs first; ninja compares mtimes per build dir
         if old.get(p) != h and p in old:
             try:
                 os.utime(p, (now, now))
@@ -70,16 +77,18 @@ def build_pyimath():
     mod = [m for m in mods if "numpy" not in os.path.basename(m)]
     if not mod:
         raise R.BuildError("imath module not found after build")
-    R.log("[py] PyImath ready in %.1fs (%s)" % (time.time() - t0, mod[0]))
-    return dict(bdir=bdir, moddir=os.path.dirname(mod[0]), libdirs=libs)
+    R.log("[py] PyImath (%s) ready in %.1fs (%s)" % (flavor, time.time() - t0, mod[0]))
+    return dict(bdir=bdir, moddir=os.path.dirname(mod[0]), libdirs=libs, flavor=flavor)
 
 
 def child_env(info):
     env = dict(os.environ)
-    asan = subprocess.run(["g++", "-print-file-name=libasan.so"], stdout=subprocess.PIPE, text=True).stdout.strip()
+    flavor = info.get("flavor", "asan")
+    rt = subprocess.run(["g++", "-print-file-name=lib%s.so" % flavor], stdout=subprocess.PIPE, text=True).stdout.strip()
     stdcpp = subprocess.run(["g++", "-print-file-name=libstdc++.so"], stdout=subprocess.PIPE, text=True).stdout.strip()
-    env["LD_PRELOAD"] = asan + " " + stdcpp
+    env["LD_PRELOAD"] = rt + " " + stdcpp
     env["ASAN_OPTIONS"] = "detect_leaks=0:exitcode=99:abort_on_error=0:allocator_may_return_null=1:handle_abort=1"
+    env["TSAN_OPTIONS"] = "halt_on_error=1:exitcode=66:report_signal_unsafe=0:history_size=1"
     env["LD_LIBRARY_PATH"] = ":".join(info["libdirs"] + [env.get("LD_LIBRARY_PATH", "")])
     env["PYTHONPATH"] = ":".join([info["moddir"], os.path.join(HERE, "py"), env.get("PYTHONPATH", "")])
     env["VP_PYIMATH_BDIR"] = info["bdir"]
@@ -130,6 +139,26 @@ def main(prop, tier, seed, replay):
     known_hits = {}
     errors = []
     procs = []
+    # race pass (C20): a second, ThreadSanitizer-instrumented build of the module runs the concurrent sweep
+    if spec.get("race_pass"):
+        try:
+            tinfo = build_pyimath("tsan")
+            tenv = child_env(tinfo)
+            tenv.update(build_poolshim(tinfo))
+            tenv["VP_RACE_PASS"] = "1"
+        except R.BuildError as e:
+            print("ERROR build failed (not a verdict)")
+            R.log(str(e))
+            return 2
+        rshards = int(spec.get("race_shards", 4))
+        # ASLR off for the TSan children: gcc 12's runtime occasionally dies with "failed to allocate" / "unexpected
+        # memory mapping" under high-entropy ASLR, which is a tool failure and not a finding
+        noaslr = ["setarch", "x86_64", "-R"] if shutil.which("setarch") else []
+        for si in range(rshards):
+            out = os.path.join(tmpd, "race%d.json" % si)
+            inflight = os.path.join(tmpd, "raceinflight%d.json" % si)
+            cmd = noaslr + [PYEXE_RUN, script, "--tier", tier, "--seed", str(seed), "--out", out, "--replay-dir", rdir, "--inflight", inflight, "--known", ",".join(knkeys), "--shard", "%d/%d" % (si, rshards)]
+            procs.append((subprocess.Popen(cmd, env=tenv, stdout=subprocess.PIPE, stderr=subprocess.PIPE, text=True), out, inflight, "race%d" % si))
     for si in range(nshards):
         out = os.path.join(tmpd, "result%d.json" % si)
         inflight = os.path.join(tmpd, "inflight%d.json" % si)
@@ -139,6 +168,7 @@ def main(prop, tier, seed, replay):
                 cmd += ["--saved", s_]
         procs.append((subprocess.Popen(cmd, env=env, stdout=subprocess.PIPE, stderr=subprocess.PIPE, text=True), out, inflight, si))
     results = []
+    race_incomplete = []
     for p, out, inflight, si in procs:
         so, se = p.communicate()
         sys.stderr.write("".join(l for l in se.splitlines(True) if l.startswith("[")) if p.returncode in (0, 1) else se[-30000:])
@@ -148,13 +178,19 @@ def main(prop, tier, seed, replay):
                 res = json.load(open(out))
             except ValueError:
                 res = None
+        if str(si).startswith("race") and (p.returncode not in (0, 1, 2) or res is None) and "ThreadSanitizer: data race" not in (se or "") and "ThreadSanitizer: heap-use-after-free" not in (se or ""):
+            # the TSan runtime itself failed (allocation / mapping): a tool failure, never a verdict; the ASan shards
+            # still compare every concurrent result with the serial one
+            race_incomplete.append("%s: rc=%s %s" % (si, p.returncode, (se or "")[-300:].replace("\n", " ")))
+            R.log("[C20] race-pass shard %s did not complete (sanitizer runtime failure, not a verdict): rc=%s" % (si, p.returncode))
+            continue
         if p.returncode not in (0, 1, 2) or res is None:
             # abort / sanitizer report / interpreter crash
-            rp = os.path.join(rdir, "crash-inflight%s.json" % ("" if si == 0 else "-%d" % si))
+            rp = os.path.join(rdir, "crash-inflight%s.json" % ("" if si == 0 else "-%s" % si))
             tail = (se or "")[-4000:]
             summ = ""
             for line in tail.splitlines():
-                if "ERROR: AddressSanitizer" in line or "SUMMARY" in line or "terminate called" in line or "Aborted" in line or "what():" in line:
+                if "ERROR: AddressSanitizer" in line or "WARNING: ThreadSanitizer" in line or "SUMMARY" in line or "terminate called" in line or "Aborted" in line or "what():" in line:
                     summ += line.strip() + " | "
             if os.path.exists(inflight):
                 shutil.copy(inflight, rp)
@@ -211,6 +247,8 @@ def main(prop, tier, seed, replay):
     if res:
         cov = res["coverage"]
     cov["known_findings_hit"] = sorted(known_hits.keys())
+    if spec.get("race_pass"):
+        cov["race_pass"] = dict(engine="ThreadSanitizer build of the module and pool shim, %d shards, ASLR disabled" % int(spec.get("race_shards", 4)), incomplete_shards=race_incomplete)
     R.write_evidence(prop, tier, seed, cov, time.time() - t0, len(violations), ASSUME_PY)
     shutil.rmtree(tmpd, ignore_errors=True)
     for k in kn:
@@ -250,6 +288,6 @@ def build_poolshim(info):
         inc = ["-I", cfg, "-I", os.path.join(R.REPO, "src", "Imath"), "-I", os.path.join(R.REPO, "src", "python", "PyImath"), "-I", "/usr/include/python3.11"]
         for pc in pycfg:
             inc += ["-I", os.path.dirname(pc)]
-        cmd = ["g++", "-std=gnu++17", "-O1", "-g1", "-fPIC", "-shared", "-fsanitize=address", "-pthread"] + inc + [src, "-o", out, "-L", os.path.dirname(pylib[0]), "-l" + os.path.basename(pylib[0])[3:].split(".so")[0]]
+        cmd = ["g++", "-std=gnu++17", "-O1", "-g1", "-fPIC", "-shared", SANFLAG[info.get("flavor", "asan")], "-pthread"] + inc + [src, "-o", out, "-L", os.path.dirname(pylib[0]), "-l" + os.path.basename(pylib[0])[3:].split(".so")[0]]
         R.compile_one(cmd, out)
     return dict(VP_POOLSHIM=out)
